@@ -24,6 +24,10 @@ import warnings
 import numpy as np
 
 from harness.core import REPO, PropertyCheck, TieBroken
+from harness.props import c13_tables
+from harness.props.c13_bayes import BayesMixin
+from harness.props.c13_misc import MiscMixin
+from harness.props.c13_seg import SegMixin, c_ve_step, ve_sim   # noqa: F401  (C glue on the rebuilt mrf.c)
 from harness.util import Snapshot, close, fr, frs, parse_rats
 
 TINY_GMM = 1.e-15
@@ -112,89 +116,52 @@ def _simplex_fail(name, z, atol=1e-9):
     return None
 
 
-_LIB = None
-
-
-def _seglib():
-    global _LIB
-    if _LIB is None:
-        from harness import cshim
-        lib = cshim.load("segmentation")
-        lib.ve_step.argtypes = [ctypes.py_object] * 4 + [ctypes.c_int, ctypes.c_double]
-        lib.ve_step.restype = None
-        _LIB = lib
-    return _LIB
-
-
-def c_ve_step(ppm, ref, XYZ, U, ngb_size, beta):
-    """`_segmentation._ve_step` with mrf.c re-compiled from the tree under test"""
-    for a, t in ((ppm, np.float64), (ref, np.float64), (U, np.float64)):
-        if not a.flags["C_CONTIGUOUS"] or a.dtype != t:
-            raise ValueError("array should be double C-contiguous")
-    if not XYZ.flags["C_CONTIGUOUS"] or XYZ.dtype != np.intp or XYZ.shape[1] != 3:
-        raise ValueError("XYZ array should be intp C-contiguous (n, 3)")
-    if ppm.shape[-1] != ref.shape[-1]:
-        raise ValueError("Inconsistent shapes for ppm and ref arrays")
-    _seglib().ve_step(ppm, ref, XYZ, U, int(ngb_size), float(beta))
-    return ppm
-
-
-def ve_sim(ppm, ref, XYZ, U, ngb_size, beta):
-    """float replay of ve_step in the operation order of mrf.c: only used to obtain the table of
-    exponential transforms handed to the model (its consistency is re-checked against the model)."""
-    X, Y, Z, K = ppm.shape
-    flat = ppm.astype(float).ravel().copy()
-    u2 = Z * K; u1 = Y * u2; posmax = X * u1 - K
-    E = []
-    for idx in range(XYZ.shape[0]):
-        x, y, z = (int(v) for v in XYZ[idx])
-        res = [0.0] * K
-        for dx, dy, dz in NGB[ngb_size]:
-            pos = (x + dx) * u1 + (y + dy) * u2 + (z + dz) * K
-            if pos < 0 or pos > posmax:
-                continue
-            for k in range(K):
-                for kk in range(K):
-                    res[k] += U[k, kk] * flat[pos + kk]
-        e = [math.exp(-2 * beta * r) for r in res]
-        p = [e[k] * ref[idx, k] for k in range(K)]
-        psum = 0.0
-        for v in p:
-            psum += v
-        pos = x * u1 + y * u2 + z * K
-        for k in range(K):
-            flat[pos + k] = p[k] / psum if psum > VE_TINY else (p[k] + VE_TINY / K) / (psum + VE_TINY)
-        E.append(e)
-    return E
-
-
-class C13(PropertyCheck):
+class C13(PropertyCheck, BayesMixin, SegMixin, MiscMixin):
     id = "C13"
     title = "Mixture-model densities and posteriors are exact and equivariant"
-    lean_modules = ["NipyVerif.Props.C13"]
+    lean_modules = ["NipyVerif.Props.C13", "NipyVerif.Props.C13B", "NipyVerif.Props.C13S",
+                    "NipyVerif.Props.C13K"]
     driver = "Drivers/C13.lean"
     rule = ("cases are (model family, parameters, data) tuples from a seeded PRNG: dims 1..4, 1..6 components, "
             "dyadic means/data, exactly representable SPD or positive diagonal precisions, simplex weights, "
-            "far outliers, zero likelihood rows, empty components, masks with border voxels; non-trivial = at "
-            "least 2 components or 2 dimensions, or a non-uniform initial map for ve_step; distinct by full JSON")
+            "far outliers, zero likelihood rows, empty components / empty classes of a hard labelling, explicit or "
+            "guessed normal-Wishart priors, masks with border voxels, every grid shape up to 4x4x2 for make_edges "
+            "(thorough), operation histories on ONE object (BGMM / VBGMM / IMM / MixedIMM / GMM / GGM / GGGM / "
+            "VonMisesMixture / Segmentation / BrainT1Segmentation) with an observation after every call; "
+            "non-trivial = at least 2 components or 2 dimensions, a non-uniform initial map, a history of >= 2 calls, "
+            "or a grid with at least one neighbour pair; distinct by full JSON")
     assumptions = [
         "log 2π, log det B (eigvalsh / log of the diagonal) and k^(2/d) are parameters of the model: the floats "
         "the implementation computed are passed as exact dyadic rationals; exp is applied by the harness",
-        "normalising constants, 'integrates to one', Wishart / Dirichlet / KL helpers, gamma and von Mises-Fisher "
-        "densities are transcendental: checked numerically by the oracle against scipy.stats, closed forms and "
-        "quadrature (rtol 1e-7 / 1e-6), not proved",
+        "normalising constants, 'integrates to one', gamma and von Mises-Fisher densities are transcendental: "
+        "checked numerically by the oracle against scipy.stats, closed forms and quadrature (rtol 1e-7 / 1e-6); of the "
+        "Wishart / Dirichlet / KL helpers the algebraic skeleton is modelled (gammaln, psi, log det and matrix "
+        "inverses enter as tables / parameters evaluated by the harness with the same scipy functions)",
         "the exponential transform of ve_step is a table parameter of the model; compare() checks every entry "
         "against exp(-2β·energy) with the model's own exact neighbourhood energy",
-        "final pinv / reciprocal of the fitted covariance is inverted back numerically (np.linalg.inv) before "
-        "comparison with the model's covariance",
-        "M-step equivariance theorems assume each component population is at least tiny=1e-15 "
-        "(np.maximum(pop, tiny) in empmeans) and fixed memberships",
-        "random draws of BGMM.update_* (Dirichlet / Wishart / normal sampling) and the VBGMM variational "
-        "pseudo-likelihood are outside the model; VBGMM._Mstep equivariance is oracle-only",
+        "final pinv / reciprocal of the fitted covariance of GMM._Mstep is inverted back numerically; for the "
+        "Bayesian updates the matrix handed to `inv` is captured, so the posterior inverse scale is compared exactly",
+        "M-step / vm_step equivariance theorems for soft memberships assume each class population is at least the "
+        "regulariser (np.maximum(pop, tiny), nonzero(P.sum())); for hard labellings (Gibbs update) there is no such "
+        "hypothesis: empty classes are covered",
+        "random draws of BGMM.update_* (Dirichlet / Wishart / normal) are outside the model: the parameters of the "
+        "conditional posterior they are drawn from are captured by wrapping generate_Wishart / generate_normals / "
+        "np.random.dirichlet; an un-patched run with a fixed seed checks equivariance of the actual draws",
+        "the cache state machine abstracts determinants and inverses as uninterpreted functions; its transition "
+        "table (which API method writes precisions / prior_scale and recomputes _detp / _dets / _inv_prior_scale "
+        "afterwards) is regenerated from the text of gmm.py / bgmm.py / imm.py on every run; inherited EM entry "
+        "points of GMM on a BGMM (_Mstep, estimate, train) are outside that API table",
+        "the Cython glue _segmentation.pyx cannot be rebuilt: its argument checks are replicated in Python and the C "
+        "functions of mrf.c (ve_step, make_edges, interaction_energy) are called through ctypes on the re-compiled source",
+        "gamma shape estimates (_psi_solve), vMF mean normalisation (sqrt) and the digamma terms of VBGMM._Estep are "
+        "parameters; kmeans initialisations are run with a fixed NumPy seed",
     ]
-    level_note = ("proved: agreement of the quadratic-form implementations, simplex of memberships (mixtures and "
-                  "both ve_step branches), arg-max, memory safety of the neighbour test, label/translation/scale "
-                  "equivariance of _Mstep; numeric only: normalising constants and special-function helpers")
+    level_note = ("proved: agreement of the quadratic-form implementations, simplex of memberships (mixtures, both "
+                  "ve_step branches, vMF, gamma-Gaussian, IMM weights, converted tissue maps), arg-max (map_label, "
+                  "map_from_ppm with both mask options, binarize_ppm), label/translation/scale equivariance of _Mstep, of "
+                  "the conjugate normal-Wishart update for every hard labelling, of VBGMM._Mstep and of vm_step, cache "
+                  "coherence after any operation history, make_edges memory safety and completeness, ownership of the "
+                  "caller's ppm, KL(p||p) = 0; numeric only: normalising constants, special-function values, integrals")
     finding_keys = {}
 
     # ---- tie (a): constants transcribed from mrf.c -------------------------
@@ -204,25 +171,22 @@ class C13(PropertyCheck):
             src = open(p).read()
         except OSError as e:
             raise TieBroken(f"cannot read mrf.c: {e}")
-        for name, ref in (("ngb6", NGB6), ("ngb26", NGB26)):
-            m = re.search(r"int\s+" + name + r"\s*\[\]\s*=\s*\{([^}]*)\}", src)
-            if not m:
-                raise TieBroken(f"mrf.c: table {name} not found")
-            vals = [int(t) for t in re.findall(r"-?\d+", m.group(1))]
-            if vals != [v for t in ref for v in t]:
-                raise TieBroken(f"mrf.c: table {name} differs from the model's table")
         m = re.search(r"#define\s+TINY\s+(\S+)", src)
         if not m or float(m.group(1)) != VE_TINY:
             raise TieBroken("mrf.c: TINY differs from the model parameter 1e-300")
+        txt = c13_tables.lean_text({"ngb6": NGB6, "ngb26": NGB26})
         from harness import cshim
         cshim.build("segmentation")      # once, in the parent: workers then only dlopen the cached library
-        return []
+        return [("NipyVerif/Gen/C13Tables.lean", txt)]
 
     # ---- generation ---------------------------------------------------------
     def generate(self, rng, tier):
         q = tier == "quick"
         n_gmm, n_ms, n_bayes, n_gg, n_vmf, n_ve, n_seg = \
             (300, 300, 120, 120, 60, 200, 30) if q else (4000, 4000, 1200, 1200, 600, 2500, 300)
+        n_bconj, n_bvb, n_bhist, n_imm, n_edges, n_map, n_segh, n_brain = \
+            (150, 100, 120, 40, 200, 150, 100, 30) if q else (2000, 1200, 1500, 400, 3000, 2000, 1200, 300)
+        n_gmmh, n_ggh, n_vmfh = (60, 60, 60) if q else (600, 600, 600)
         cases = []
         for i in range(n_gmm):
             d = rng.choice([1, 1, 2, 2, 3, 4]); k = rng.choice([1, 2, 2, 3, 4, 6])
@@ -244,6 +208,38 @@ class C13(PropertyCheck):
             cases.append(self._gen_ve(rng))
         for _ in range(n_seg):
             cases.append(self._gen_seg(rng))
+        for i in range(n_bconj):
+            if not q and i < 24:                       # exhaustive small domain: every (d, k)
+                cases.append(self._gen_bconj(rng, 1 + i // 6, 1 + i % 6))
+            else:
+                cases.append(self._gen_bconj(rng))
+        for _ in range(n_bvb):
+            cases.append(self._gen_bvb(rng))
+        for _ in range(n_bhist):
+            cases.append(self._gen_bhist(rng))
+        for _ in range(n_imm):
+            cases.append(self._gen_imm(rng))
+        for i in range(n_edges):
+            if not q and i < 128:                      # every grid shape up to 4x4x2, both systems
+                dims = (1 + i % 4, 1 + (i // 4) % 4, 1 + (i // 16) % 2)
+                c = self._gen_edges(rng, dims); c["ngb"] = (6, 26)[(i // 32) % 2]; c["layout"] = "C"
+                cases.append(c)
+            else:
+                cases.append(self._gen_edges(rng))
+        for _ in range(n_map):
+            cases.append(self._gen_mapppm(rng))
+        for _ in range(n_segh):
+            cases.append(self._gen_segh(rng))
+        for _ in range(n_brain):
+            cases.append(self._gen_brain(rng))
+        for _ in range(n_gmmh):
+            cases.append(self._gen_gmmh(rng))
+        for _ in range(n_ggh):
+            cases.append(self._gen_ggh(rng))
+        for _ in range(n_vmfh):
+            cases.append(self._gen_vmfh(rng))
+        for _ in range(40 if q else 400):
+            cases.append(self._gen_binar(rng))
         return cases
 
     def _gen_gmm(self, rng, d, k):
@@ -409,7 +405,8 @@ class C13(PropertyCheck):
         except Exception as e:                           # noqa: BLE001
             import traceback
             tb = traceback.extract_tb(e.__traceback__)
-            if tb and "/nipy/" in tb[-1].filename:       # raised inside the code under test
+            from harness.props.c13_seg import GlueRefusal
+            if tb and ("/nipy/" in tb[-1].filename or isinstance(e, GlueRefusal)):   # raised inside the code under test
                 return {"lines": [], "impl": [], "nontrivial": True, "tags": [case["kind"], "raised"],
                         "mutated": None,
                         "oracle": f"{case['kind']}: nipy raised {type(e).__name__}: {e} "
@@ -549,7 +546,7 @@ class C13(PropertyCheck):
         mag = float(np.abs(M).max() + np.abs(t).max()) if np.all(np.isfinite(M)) else 0.0
         if fail is None:
             W2, M2, C2 = fit(x, like[:, p])
-            if max(_abs_scaled(W2, W[p]), _abs_scaled(M2, M[p]), _abs_scaled(C2, C[p])) > 1e-9:
+            if max(_abs_scaled(W2, W[p]), _abs_scaled(M2, M[p], float(np.abs(x).max())), _abs_scaled(C2, C[p])) > 1e-9:
                 fail = f"_Mstep ({pt}): relabelling components by {p} does not permute the fitted parameters"
         # responsibilities of every sample are positive-summing here, populations >= tiny unless empty-comp
         if fail is None:
@@ -561,7 +558,7 @@ class C13(PropertyCheck):
             W4, M4, C4 = fit(x * a, like)
             Cexp = C * (a[:, None] * a[None, :]) if full else C * a ** 2
             cerr, j = _cov_err(C4, Cexp, full)
-            if max(_abs_scaled(W4, W), _abs_scaled(M4, M * a)) > 1e-8 or cerr > 1e-6:
+            if max(_abs_scaled(W4, W), _abs_scaled(M4, M * a, float(np.abs(x * a).max()))) > 1e-8 or cerr > 1e-6:
                 fail = (f"_Mstep ({pt}): rescaling the axes by {a.tolist()} does not rescale the fitted covariance "
                         f"accordingly: entry {j} is {float(C4[j])!r}, expected {float(Cexp[j])!r}")
         if fail is None:                                # memberships under the fitted parameters are unchanged
@@ -668,7 +665,9 @@ class C13(PropertyCheck):
             if not close(got, ref, 1e-6, 1e-7):
                 fail = (f"dkl_wishart({aq}, B1, {ap}, B2) = {got!r} but KL = -H(q) - E_q[log p] = {ref!r}"
                         + (" (negative divergence)" if got < -1e-9 else ""))
-        return {"lines": [line], "impl": [("explog", [ne])], "oracle": fail, "nontrivial": d >= 2,
+        kl, ki, kfail = self.kl_lines(c, bgmm, m1, P1, m2, P2, Wm, a1, a2, al1, al2, w)
+        fail = fail or kfail
+        return {"lines": [line] + kl, "impl": [("explog", [ne])] + ki, "oracle": fail, "nontrivial": d >= 2,
                 "tags": tags, "mutated": snap.changed()}
 
     # .... gamma-Gaussian mixtures ....
@@ -881,6 +880,12 @@ class C13(PropertyCheck):
             return f"model says {model_out}"
         if kind == "int":
             return None if str(impl_obs[1]) == model_out.strip() else f"impl={impl_obs[1]} model={model_out}"
+        if kind == "str":
+            return None if impl_obs[1].strip() == model_out.strip() else \
+                f"impl={impl_obs[1][:300]!r} model={model_out[:300]!r}"
+        if kind == "hist1":                              # only the `_detp` flag of every step
+            mo = " ".join(t[0] for t in model_out.split())
+            return None if impl_obs[1].strip() == mo else f"impl={impl_obs[1]!r} model={mo!r}"
         if kind == "explog":
             ws = parse_rats(model_out)
             vals = impl_obs[1]
@@ -919,13 +924,14 @@ class C13(PropertyCheck):
                 return f"arg-max labels impl={z} model={[int(v) for v in secs[2]]}"
             return None
         if kind == "sections":
-            _, ivs, tol = impl_obs
+            ivs, tol = impl_obs[1], impl_obs[2]
+            floors = impl_obs[3] if len(impl_obs) > 3 else [0.0] * len(ivs)   # size of cancelling terms
             if len(secs) != len(ivs):
                 return "model output malformed"
             for s, (iv, mv) in enumerate(zip(ivs, secs)):
                 if len(iv) != len(mv):
                     return f"section {s}: length impl={len(iv)} model={len(mv)}"
-                scale = max([abs(float(v)) for v in mv] + [1e-300])
+                scale = max([abs(float(v)) for v in mv] + [1e-300, floors[s]])
                 for i, (a, b) in enumerate(zip(iv, mv)):
                     if not (math.isfinite(a) and abs(a - float(b)) <= tol * scale):
                         return f"section {s} entry {i}: impl={a!r} model={float(b)!r}"
@@ -948,6 +954,12 @@ class C13(PropertyCheck):
     # ---- shrinking ----------------------------------------------------------
     def shrink(self, case):
         k = case["kind"]
+        if k in ("bconj", "bvb", "bhist", "imm"):
+            yield from self.shrink_bayes(case)
+            return
+        if k in ("edges", "mapppm", "segh", "brain", "binar"):
+            yield from self.shrink_seg(case)
+            return
         if k in ("gmm", "gg", "vmf") and len(case["x"]) > 1:
             for i in range(len(case["x"])):
                 c = dict(case); c["x"] = case["x"][:i] + case["x"][i + 1:]
